@@ -32,10 +32,12 @@ def cases(tier):
     for f in FORMULAS:
         vars_ = [v for v in gen.used_vars(f) if v in gen.LEVELS]
         placements = [((v,), rows) for v in vars_ for rows in ([0], [0, 2], [1, 3])]
+        # two unseen values that cannot be compared with each other (a label and a number) in one column
+        placements += [((v,), "mixed") for v in vars_[:1] if v != "k"]
         if len(vars_) >= 2:
             placements += [((vars_[0], vars_[1]), [0]), ((vars_[0], vars_[1]), "split")]
         if tier == "quick":
-            placements = [p for i, p in enumerate(placements) if i % 2 == 0 or len(p[0]) > 1]
+            placements = [p for i, p in enumerate(placements) if i % 2 == 0 or len(p[0]) > 1 or p[1] == "mixed"]
         for vs, rows in placements:
             for mode in MODES:
                 for seq in (["direct"] if tier == "quick" else ["direct", "via-other", "after-invalid"]):
@@ -97,11 +99,15 @@ def harness(env, case):
     unseen = seen.copy()
     affected = {}  # var -> rows of the new frame carrying an unseen level
     for i, v in enumerate(vs):
-        rr = rows_spec if rows_spec != "split" else ([0] if i == 0 else [2])
+        rr = rows_spec if rows_spec not in ("split", "mixed") else ([0] if i == 0 else [2])
+        if rows_spec == "mixed":
+            rr = [0, 2]
         col = list(unseen[v].values)
         for r in rr:
             col[r] = UNSEEN[v]
-        unseen[v] = pd.Series(col, dtype=df[v].dtype if v == "k" else "str")
+        if rows_spec == "mixed":
+            col[2] = 7
+        unseen[v] = pd.Series(col, dtype=df[v].dtype if v == "k" else ("str" if rows_spec != "mixed" else object))
         if flavour == "ord" and v != "k":
             seen[v] = pd.Series(list(seen[v].values), dtype="str")
         affected[v] = list(rr)
